@@ -814,9 +814,14 @@ func (cc *Conn) handleReq(w *responsewriter.ResponseWriter[*Conn], req *pool.Mes
 	reqMid := req.MessageID()
 
 	// The same message ID can not be handled concurrently
-	// for deduplication to work
-	l := cc.msgIDMutex.Lock(reqMid)
-	defer l.Unlock()
+	// for deduplication to work. Only confirmable and non-confirmable messages carry an ID of
+	// the peer's choosing and are de-duplicated; an acknowledgement or reset carries an ID of
+	// ours, which may equal the ID of a peer's message whose handler is waiting for just that
+	// acknowledgement.
+	if req.Type() == message.Confirmable || req.Type() == message.NonConfirmable {
+		l := cc.msgIDMutex.Lock(reqMid)
+		defer l.Unlock()
+	}
 
 	if ok, err := cc.checkResponseCache(req, w); err != nil {
 		cc.closeConnection()
